@@ -733,7 +733,8 @@ func checkAndPropagateArgsForUnionWithReturnT(
 		}
 
 		if returnT == nil {
-			returnT = methodTs[idx]
+			// the method types are shared with the method table: merge into a copy
+			returnT = methodTs[idx].DeepCopy()
 
 			continue
 		}
@@ -745,9 +746,10 @@ func checkAndPropagateArgsForUnionWithReturnT(
 		}
 
 		if methodTs[idx].IsUnionType() {
-			methodTs[idx].AppendVariant(*returnT)
+			unionT := methodTs[idx].DeepCopy()
+			unionT.AppendVariant(*returnT)
 
-			returnT = base.MakeUnion(methodTs[idx].GetVariants())
+			returnT = base.MakeUnion(unionT.GetVariants())
 
 			continue
 		}
